@@ -6,7 +6,7 @@
    Mode "judge": the property-level predicates DocOk / EscOk of the reference part of LinkDest.tla.
    Mode "drift": DIAGNOSTIC comparison with the implementation-shaped model (exact bytes); its result
    is recorded as model_drift and never changes the verdict. *)
-EXTENDS LinkDest, TLC, Json
+EXTENDS LinkDest, TLC, Json, FiniteSets, SequencesExt
 CONSTANT Mode
 
 ModelAgrees(r) ==
@@ -26,16 +26,22 @@ Sig(r) ==
         kind |-> IF v.b = 0 THEN "-" ELSE r.kinds[v.b],
         after |-> IF v.b = 0 THEN OpenBefore(r.kinds, Len(r.kinds)) ELSE OpenBefore(r.kinds, v.b - 1)]
 
-(* ---- record-walk skeleton (same in every record-per-line Trace spec; see spec/README) ---- *)
+(* ---- record-walk skeleton (spec/lib2/Trace_HTMLEscape.tla) with ONE change: bad.ndjson lists one record per
+        distinct signature (the first observation having it, with the number n of observations sharing it)
+        instead of the first 400 bad records - a finding shared by thousands of documents must not push a
+        different violation out of the list. ---- *)
 VARIABLES l, nbad
 Obs == ndJsonDeserialize("obs.ndjson")
 Init == l = 1 /\ nbad = 0
 Next == l <= Len(Obs) /\ l' = l + 1 /\ nbad' = nbad + (IF RecOk(Obs[l]) THEN 0 ELSE 1)
 BadIdx == SelectSeq([i \in 1..Len(Obs) |-> i], LAMBDA i : ~RecOk(Obs[i]))
-Done == l = Len(Obs) + 1 =>
-          ndJsonSerialize("bad.ndjson",
-             IF nbad = 0 THEN <<>>
-             ELSE [j \in 1..(IF Len(BadIdx) < 400 THEN Len(BadIdx) ELSE 400) |->
-                     [k |-> BadIdx[j], id |-> Obs[BadIdx[j]].id, sig |-> Sig(Obs[BadIdx[j]]), nbad |-> nbad]])
+BadList ==
+  LET pairs == {<<Sig(Obs[BadIdx[j]]), BadIdx[j]>> : j \in 1..Len(BadIdx)}
+      sigs == {p[1] : p \in pairs}
+      First(sg) == CHOOSE i \in {p[2] : p \in {q \in pairs : q[1] = sg}} : \A q \in pairs : q[1] = sg => i <= q[2]
+      Count(sg) == Cardinality({q \in pairs : q[1] = sg})
+      firsts == SetToSeq({<<First(sg), Count(sg), sg>> : sg \in sigs}) IN
+  [j \in 1..Len(firsts) |-> [k |-> firsts[j][1], id |-> Obs[firsts[j][1]].id, sig |-> firsts[j][3], n |-> firsts[j][2], nbad |-> nbad]]
+Done == l = Len(Obs) + 1 => ndJsonSerialize("bad.ndjson", IF nbad = 0 THEN <<>> ELSE BadList)
 Consumed == TLCGet("stats").diameter - 1 = Len(Obs)
 =============================================================================
